@@ -65,7 +65,7 @@ def main() -> int:
         "setup_cmd": "cd /verif && /venv/bin/python -c \"import sys; sys.path.insert(0, '/repo/src'); import jax, equinox, optax, numpy, ginjax\"",
         "hooks": {
             "guard": "GINJAX_VERIF",
-            "enable": "no source hook exists: seams are module-attribute patches of ginjax.ml.training (time, open, wandb, get_batches) and injected arguments, installed by /verif/sim/world.py inside each simulated run; GINJAX_VERIF is set by the checks but read by no line of /repo",
+            "enable": "no source hook exists: seams are module-attribute patches of ginjax.ml.training (time, open, wandb, get_batches, and os if the module imports it) and injected arguments, installed by /verif/sim/world.py inside each simulated run; GINJAX_VERIF is set by the checks but read by no line of /repo",
             "baseline_off_cmd": "cd /repo && /venv/bin/python -m pytest -ra -q -p no:cacheprovider --timeout=900 --continue-on-collection-errors",
             "source_commits": [],
             "add_only": True,
